@@ -19,7 +19,7 @@ EXPLANATION = (
     "list', the enabled list receives an identifier only when its enabled decision is true, and the copies kept by "
     "the parser properties pair each flag with the same-named manager flag; R20c front matter is looked for before "
     "the block pass loop and only under its flag; R20d each extension's documentation page states the identifier "
-    "and the enabled default the code uses. Not decided: that an enabled extension changes only documents containing "
+    "and the enabled default the code uses; R20e (=R11e) the per-document state of the pragma extension is re-created for every document, so a document without pragma syntax never carries pragmas. Not decided: that an enabled extension changes only documents containing "
     "its syntax, and that front matter shifts positions by exactly the block's length (run-time behaviour)."
 )
 ASSUMPTIONS = ["extension code is reached only through the sites enumerated by R20a (the call graph resolves ~100 % of call sites; checked by the resolution floor)"]
@@ -346,3 +346,10 @@ def run(ctx: Context) -> None:
     r20b(ctx)
     r20c(ctx)
     r20d(ctx)
+    from sa.rules import c11
+
+    # a document without an extension's syntax must not inherit that extension's state from an earlier one
+    c11.r11e(ctx)
+    ctx.rules[-1].rule_id = "R20e"
+    for finding in ctx.rules[-1].findings:
+        finding.rule = "R20e"
